@@ -11,6 +11,7 @@ MISSED_FIRST = {
     4: {"C01": "", "C02": "", "C03": "", "C04": "quick (thorough reaches the history at depth 6)", "C08": "", "C10": "", "C12": "", "C13": "", "C14": "C13 reported it", "C17": "", "C20": ""},
     5: {"C01": "", "C02": "", "C03": "", "C08": "", "C13": "", "C17": ""},
     6: {"C02": "", "C03": "", "C13": "", "C17": ""},
+    7: {},
 }
 
 
@@ -40,18 +41,18 @@ def row(f):
     return name, '| %s | %s | %s | %s | %s | %s | %s |' % (name, files, summ, need, base_s, demo_ok, '; '.join(det))
 
 
-rounds = {1: [], 2: [], 3: [], 4: [], 5: [], 6: []}
+rounds = {1: [], 2: [], 3: [], 4: [], 5: [], 6: [], 7: []}
 for f in sorted(glob.glob('/verif/seeded/*/meta.json')):
     name = os.path.basename(os.path.dirname(f))
-    rnd = {'': 1, 'b': 2, 'c': 3, 'd': 4, 'e': 5, 'f': 6}[re.sub(r'^C\d\d', '', name)]
+    rnd = {'': 1, 'b': 2, 'c': 3, 'd': 4, 'e': 5, 'f': 6, 'g': 7}[re.sub(r'^C\d\d', '', name)]
     rounds[rnd].append(row(f))
-for rnd in (1, 2, 3, 4, 5, 6):
+for rnd in (1, 2, 3, 4, 5, 6, 7):
     if not rounds[rnd]:
         continue
-    print('\n**Round %d** (%d changes)\n' % (rnd, len(rounds[rnd])))
+    print('\n**Change no. %d per property** (%d changes)\n' % (rnd, len(rounds[rnd])))
     print('| seed | file | change | what it needs to manifest | suite passes with it | demo fails with / passes without | reported by (final machinery) |')
     print('|---|---|---|---|---|---|---|')
     for name, line in rounds[rnd]:
         print(line)
     miss = MISSED_FIRST[rnd]
-    print('\nMissed by the first version of the check that met it: %s.' % (', '.join('%s%s' % (k + {1: '', 2: 'b', 3: 'c', 4: 'd', 5: 'e', 6: 'f'}[rnd], (' - ' + v) if v else '') for k, v in sorted(miss.items())) or 'none'))
+    print('\nMissed by the first version of the check that met it: %s.' % (', '.join('%s%s' % (k + {1: '', 2: 'b', 3: 'c', 4: 'd', 5: 'e', 6: 'f', 7: 'g'}[rnd], (' - ' + v) if v else '') for k, v in sorted(miss.items())) or 'none'))
